@@ -294,6 +294,31 @@ def decay_steps(rep: Report, rng: random.Random, n: int) -> None:
                     break
 
 
+def call_styles(rep: Report) -> None:
+    """Beyond the listed property (its quantifier passes every option by keyword): the optimizer classes called the way
+    torch.optim classes can be called -- further options positionally, named_parameters() as input.  Non-gating."""
+    import unit_scaling as uu
+    from unit_scaling import optim as O
+
+    def params():
+        torch.manual_seed(0)
+        return uu.Linear(4, 3, bias=True)
+
+    probes = [
+        ("SGD(params, 0.1, 0.9): momentum given positionally", lambda m: O.SGD(m.parameters(), 0.1, 0.9), lambda o: o.param_groups[0].get("momentum") == 0.9),
+        ("Adam(params, 0.1, (0.8, 0.9)): betas given positionally", lambda m: O.Adam(m.parameters(), 0.1, (0.8, 0.9)), lambda o: tuple(o.param_groups[0].get("betas")) == (0.8, 0.9)),
+        ("AdamW(params, 0.1, (0.8, 0.9), 1e-6): betas and eps given positionally", lambda m: O.AdamW(m.parameters(), 0.1, (0.8, 0.9), 1e-6), lambda o: o.param_groups[0].get("eps") == 1e-6),
+        ("SGD(model.named_parameters(), lr=0.1)", lambda m: O.SGD(m.named_parameters(), lr=0.1), lambda o: len(o.param_groups) == 2),
+    ]
+    for label, make, ok in probes:
+        rep.case(("call_style", label))
+        try:
+            if not ok(make(params())):
+                rep.beyond(f"uu.optim: {label}: the option is silently not honoured")
+        except Exception as ex:
+            rep.beyond(f"uu.optim: {label}: raised {type(ex).__name__}: {str(ex)[:100]} (torch.optim accepts this call)")
+
+
 def run(rep: Report, tier: str) -> None:
     rng = random.Random(common.seed() * 101 + 5)
     quick = tier == "quick"
@@ -343,6 +368,7 @@ def run(rep: Report, tier: str) -> None:
         rep.case(json.dumps(ninp, sort_keys=True))
     decay_steps(rep, rng, 60 if quick else 600)
     rep.traces = rep.evaluations
+    call_styles(rep)
     rep.rule = (
         "inputs = terminal states of Optim_MC phase loop emitted by TLC (quick: 1 group; thorough: <= 2 groups) + random inputs with 1-6 groups x 1-5 params "
         "evaluated point-wise by TLC; each run through scaled_parameters (groups, bare list, generator) and the optimizer classes; plus real zero-gradient steps; "
